@@ -623,6 +623,11 @@ func stateRules(c *Ctx) {
 		unsafeAlias(c, g, short1)
 		// ---- a buffered writer whose buffer is never written out
 		unflushedWriter(c, g, short1)
+		// ---- pooled memory used after it was put back; a pooled buffer that keeps an earlier call's content
+		poolUseAfterPut(c, g, short1)
+		poolBufferHygiene(c, g, short1)
+		// ---- an element removed from the list that is being ranged over
+		rangeDelete(c, g, short1)
 	}
 	// parsers that link features to a local Sequence (shared by C01, C14, C15)
 	switch c.Prop {
@@ -1902,4 +1907,380 @@ func freeLeaves(g *ssa.Function, v ssa.Value) (leaves []string, ok bool) {
 	}
 	visit(v, 0)
 	return leaves, ok && len(leaves) > 0
+}
+
+// pooledObjects: the objects taken from a sync.Pool in g (the asserted value of each Get, plus the loads of a
+// cell the pointer is kept in).
+func pooledObjects(g *ssa.Function) [][]ssa.Value {
+	var out [][]ssa.Value
+	eachInstr(g, func(i ssa.Instruction) {
+		get, ok := i.(*ssa.Call)
+		if !ok || calleeName(get) != "(*sync.Pool).Get" || get.Referrers() == nil {
+			return
+		}
+		for _, r := range *get.Referrers() {
+			ta, ok := r.(*ssa.TypeAssert)
+			if !ok {
+				continue
+			}
+			var obj ssa.Value = ta
+			if ta.CommaOk {
+				obj = nil
+				if ta.Referrers() != nil {
+					for _, rr := range *ta.Referrers() {
+						if ex, isEx := rr.(*ssa.Extract); isEx && ex.Index == 0 {
+							obj = ex
+						}
+					}
+				}
+			}
+			if obj == nil || obj.Referrers() == nil {
+				continue
+			}
+			objs := []ssa.Value{obj}
+			for _, rr := range *obj.Referrers() {
+				if st, isSt := rr.(*ssa.Store); isSt && st.Val == obj {
+					if cell, isCell := st.Addr.(*ssa.Alloc); isCell && cell.Referrers() != nil {
+						for _, cr := range *cell.Referrers() {
+							if cl, isLoad := cr.(*ssa.UnOp); isLoad && cl.Op.String() == "*" {
+								objs = append(objs, cl)
+							}
+						}
+					}
+				}
+			}
+			out = append(out, objs)
+		}
+	})
+	return out
+}
+
+// poolUseAfterPut: an object is put back into its pool and memory reached through it is used afterwards in
+// the same function (a slice of its content converted or copied after the Put): from the Put on, the next
+// Get may hand the object to another goroutine, which overwrites what is still being read.
+func poolUseAfterPut(c *Ctx, g *ssa.Function, short1 string) {
+	for _, objs := range pooledObjects(g) {
+		// everything derived from the object without a call: loads, slices, element and field addresses
+		derived := map[ssa.Value]bool{}
+		var work []ssa.Value
+		for _, o := range objs {
+			derived[o] = true
+			work = append(work, o)
+		}
+		isObj := map[ssa.Value]bool{}
+		for _, o := range objs {
+			isObj[o] = true
+		}
+		for len(work) > 0 {
+			v := work[len(work)-1]
+			work = work[:len(work)-1]
+			if v.Referrers() == nil {
+				continue
+			}
+			for _, r := range *v.Referrers() {
+				switch x := r.(type) {
+				case *ssa.UnOp, *ssa.Slice, *ssa.IndexAddr, *ssa.FieldAddr, *ssa.Index, *ssa.Field, *ssa.ChangeType:
+					xv := x.(ssa.Value)
+					if u, isU := x.(*ssa.UnOp); isU && u.Op.String() != "*" {
+						continue
+					}
+					if !derived[xv] {
+						derived[xv] = true
+						work = append(work, xv)
+					}
+				}
+			}
+		}
+		var puts []ssa.Instruction
+		for _, o := range objs {
+			if o.Referrers() == nil {
+				continue
+			}
+			for _, r := range *o.Referrers() {
+				mi, isMI := r.(*ssa.MakeInterface)
+				if !isMI || mi.Referrers() == nil {
+					continue
+				}
+				for _, rr := range *mi.Referrers() {
+					if cl, isCall := rr.(*ssa.Call); isCall && calleeName(cl) == "(*sync.Pool).Put" {
+						puts = append(puts, cl)
+					}
+				}
+			}
+		}
+		for _, p := range puts {
+			var late ssa.Instruction
+			for d := range derived {
+				if isObj[d] || d.Referrers() == nil {
+					continue
+				}
+				// only content counts: the slices and elements, not the pointer
+				if _, isPtrLoad := d.(*ssa.UnOp); isPtrLoad {
+					if _, isSl := d.Type().Underlying().(*types.Slice); !isSl {
+						continue
+					}
+				}
+				for _, r := range *d.Referrers() {
+					if _, isDbg := r.(*ssa.DebugRef); isDbg {
+						continue
+					}
+					if r != p && domInstr(p, r) && (late == nil || r.Pos() < late.Pos()) {
+						late = r
+					}
+				}
+			}
+			if late != nil {
+				c.bad("STATE", "pool-use-after-put:"+short1, p.Pos(), fmt.Sprintf("%s puts an object back into its sync.Pool and still uses memory reached through it afterwards (at %s): from the Put on another goroutine's Get may receive the object and overwrite what is being read", short1, c.W.pos(late.Pos())))
+				return
+			}
+		}
+	}
+}
+
+// poolBufferHygiene: a pooled bytes.Buffer / strings.Builder that is written to as it comes and not emptied on
+// every way out: what one call leaves in it (a call that returned early with an error, say) comes out in
+// front of the next call's output.
+func poolBufferHygiene(c *Ctx, g *ssa.Function, short1 string) {
+	for _, objs := range pooledObjects(g) {
+		tn := tname(objs[0].Type())
+		if tn != "*bytes.Buffer" && tn != "*strings.Builder" {
+			continue
+		}
+		recv := strings.TrimPrefix(tn, "*")
+		var resets, writes, reads []ssa.Instruction
+		deferredPut := false
+		var puts []ssa.Instruction
+		escapes := false
+		for _, o := range objs {
+			if o.Referrers() == nil {
+				continue
+			}
+			for _, r := range *o.Referrers() {
+				switch x := r.(type) {
+				case *ssa.DebugRef, *ssa.Store:
+				case *ssa.MakeInterface:
+					if x.Referrers() != nil {
+						for _, rr := range *x.Referrers() {
+							ci, isCI := rr.(ssa.CallInstruction)
+							if !isCI {
+								escapes = true
+								continue
+							}
+							switch n := calleeName(ci); {
+							case n == "(*sync.Pool).Put":
+								if _, isDefer := rr.(*ssa.Defer); isDefer {
+									deferredPut = true
+								} else {
+									puts = append(puts, rr)
+								}
+							case strings.HasPrefix(n, "fmt.Fprint") || n == "io.WriteString" || n == "io.Copy":
+								writes = append(writes, rr)
+							default:
+								escapes = true
+							}
+						}
+					}
+				case ssa.CallInstruction:
+					n := calleeName(x)
+					if !strings.HasPrefix(n, "(*"+recv+").") {
+						escapes = true
+						continue
+					}
+					switch m := strings.TrimPrefix(n, "(*"+recv+")."); {
+					case m == "Reset" || m == "Truncate":
+						resets = append(resets, r)
+					case strings.HasPrefix(m, "Write") || m == "ReadFrom":
+						writes = append(writes, r)
+					case m == "String" || m == "Bytes" || m == "Len":
+						reads = append(reads, r)
+					}
+				default:
+					escapes = true
+				}
+			}
+		}
+		if escapes || len(writes) == 0 || (!deferredPut && len(puts) == 0) {
+			continue
+		}
+		// emptied on the way in: a reset before anything is written or read
+		freshOnGet := false
+		for _, rs := range resets {
+			all := true
+			for _, w := range append(append([]ssa.Instruction{}, writes...), reads...) {
+				if !domInstr(rs, w) {
+					all = false
+				}
+			}
+			if all {
+				freshOnGet = true
+			}
+		}
+		if freshOnGet {
+			continue
+		}
+		// emptied on every way out: from each write, every path to an exit passes a reset
+		resetIn := map[*ssa.BasicBlock][]ssa.Instruction{}
+		for _, rs := range resets {
+			resetIn[rs.Block()] = append(resetIn[rs.Block()], rs)
+		}
+		exits := map[*ssa.BasicBlock]bool{}
+		if deferredPut {
+			for _, r := range returnsOf(g) {
+				exits[r.Block()] = true
+			}
+		}
+		for _, p := range puts {
+			exits[p.Block()] = true
+		}
+		idx := func(in ssa.Instruction) int {
+			for k, x := range in.Block().Instrs {
+				if x == in {
+					return k
+				}
+			}
+			return -1
+		}
+		var leak ssa.Instruction
+		for _, w := range writes {
+			covered := false
+			for _, rs := range resetIn[w.Block()] {
+				if idx(rs) > idx(w) {
+					covered = true
+				}
+			}
+			if covered {
+				continue
+			}
+			if exits[w.Block()] {
+				leak = w
+				break
+			}
+			seen := map[*ssa.BasicBlock]bool{}
+			stack := append([]*ssa.BasicBlock{}, w.Block().Succs...)
+			for len(stack) > 0 && leak == nil {
+				b := stack[len(stack)-1]
+				stack = stack[:len(stack)-1]
+				if seen[b] {
+					continue
+				}
+				seen[b] = true
+				if len(resetIn[b]) > 0 {
+					continue
+				}
+				if exits[b] {
+					leak = w
+					break
+				}
+				stack = append(stack, b.Succs...)
+			}
+			if leak != nil {
+				break
+			}
+		}
+		if leak != nil {
+			c.bad("STATE", "pool-content:"+short1, leak.Pos(), fmt.Sprintf("%s writes into a pooled %s without emptying it first, and there is a way out on which it goes back to the pool with that content (an early return): the next call's output starts with what this one left behind", short1, recv))
+		}
+	}
+}
+
+// rangeDelete: an element is cut out of a list with append(s[:i], s[i+1:]...) inside a range loop over that
+// same list, and the loop goes on: the following element slides into the slot just visited and is never
+// looked at (and the loop still runs to the old length over a shifted tail).
+func rangeDelete(c *Ctx, g *ssa.Function, short1 string) {
+	root := func(v ssa.Value) ssa.Value {
+		for d := 0; d < 12; d++ {
+			switch x := v.(type) {
+			case *ssa.Slice:
+				v = x.X
+			case *ssa.Call:
+				if calleeName(x) == "builtin:append" {
+					v = x.Call.Args[0]
+				} else {
+					return v
+				}
+			case *ssa.Phi:
+				// the loop-carried list: every edge is the list at entry or a cut-down version of it
+				var first ssa.Value
+				for _, e := range x.Edges {
+					if e == ssa.Value(x) {
+						continue
+					}
+					if first == nil {
+						first = e
+					}
+				}
+				if first == nil {
+					return v
+				}
+				v = first
+			default:
+				return v
+			}
+		}
+		return v
+	}
+	eachInstr(g, func(i ssa.Instruction) {
+		ap, ok := i.(*ssa.Call)
+		if !ok || calleeName(ap) != "builtin:append" || len(ap.Call.Args) != 2 {
+			return
+		}
+		head, ok1 := ap.Call.Args[0].(*ssa.Slice)
+		tail, ok2 := ap.Call.Args[1].(*ssa.Slice)
+		if !ok1 || !ok2 || head.Low != nil || head.High == nil || tail.High != nil || tail.Low == nil {
+			return
+		}
+		nxt, isBin := tail.Low.(*ssa.BinOp)
+		if !isBin || nxt.Op != token.ADD || nxt.X != head.High {
+			return
+		}
+		if k, isC := nxt.Y.(*ssa.Const); !isC || k.Value == nil || k.Value.ExactString() != "1" {
+			return
+		}
+		if root(head.X) != root(tail.X) {
+			return
+		}
+		// head.High is the index of a range loop over the same list
+		idx, isIdx := head.High.(*ssa.BinOp)
+		if !isIdx || idx.Op != token.ADD {
+			return
+		}
+		ph, isPhi := idx.X.(*ssa.Phi)
+		if !isPhi || !strings.HasPrefix(ph.Block().Comment, "rangeindex") || ph.Block() != idx.Block() {
+			return
+		}
+		hdr := ph.Block()
+		// the list that is ranged over: len(X) evaluated before the loop, X indexed by idx in the body
+		var ranged ssa.Value
+		eachInstr(g, func(j ssa.Instruction) {
+			if ia, isIA := j.(*ssa.IndexAddr); isIA && ia.Index == ssa.Value(idx) {
+				ranged = ia.X
+			}
+		})
+		if ranged == nil || root(ranged) != root(head.X) {
+			return
+		}
+		if !naturalLoopOf(hdr)[ap.Block()] {
+			return
+		}
+		// the loop goes on after the cut
+		goesOn := false
+		seen := map[*ssa.BasicBlock]bool{}
+		stack := append([]*ssa.BasicBlock{}, ap.Block().Succs...)
+		for len(stack) > 0 {
+			b := stack[len(stack)-1]
+			stack = stack[:len(stack)-1]
+			if b == hdr {
+				goesOn = true
+				break
+			}
+			if seen[b] || !naturalLoopOf(hdr)[b] {
+				continue
+			}
+			seen[b] = true
+			stack = append(stack, b.Succs...)
+		}
+		if goesOn {
+			c.bad("STATE", "range-delete:"+short1, ap.Pos(), fmt.Sprintf("%s cuts the current element out of the list it is ranging over (append(s[:i], s[i+1:]...)) and goes on with the loop: the next element slides into the slot just visited and is skipped for this pass", short1))
+		}
+	})
 }
